@@ -120,6 +120,19 @@ def main():
         # 3. prove
         proof = prove(ctx, mod)
         stages['prove'] = {k: v for k, v in proof.items() if k not in ('assumptions_output',)}
+        # 3b. thorough tier: independent re-check of the compiled closure with coqchk (lists every axiom it rests on)
+        if args.tier == 'thorough' and proof['ok'] and os.environ.get('VERIF_NO_COQCHK') != '1':
+            import subprocess
+            t0 = time.time()
+            logical = 'PV.' + mod.PROPS_V[:-2].replace('/', '.')
+            with C.Lock(os.path.join(C.COQ, '.lock-coqchk')):
+                p = subprocess.run(['timeout', '1500', 'coqchk', '-silent', '-o', '-R', C.COQ, 'PV', logical],
+                                   stdout=subprocess.PIPE, stderr=subprocess.STDOUT, text=True)
+            tail = p.stdout[-3000:]
+            stages['coqchk'] = {'rc': p.returncode, 'seconds': round(time.time() - t0, 1), 'output_tail': tail}
+            if p.returncode != 0:
+                ctx.violation('coqchk-failed', 'coqchk rejected the compiled closure of %s' % mod.PROPS_V,
+                              {'kind': 'broken-proof', 'item': 'coqchk ' + logical, 'output_tail': tail}, False)
         # 4. correspond (also serves as the search when a proof broke)
         t0 = time.time()
         mod.correspond(ctx, proof_ok=proof['ok'])
